@@ -30,7 +30,7 @@ Import ListNotations.
 Open Scope Z_scope.
 
 (* ------------------------------------------------------------------ values *)
-Inductive tok := Lit (s : text) | Idx | HierIdx.
+Inductive tok := Lit (s : text) | Idx | HierIdx | IdxPad (w : nat).   (* "{idx:0<w>d}" *)
 Definition tmpl := list tok.
 
 Inductive value :=
@@ -140,8 +140,10 @@ Definition hier (prefix : text) (i : nat) : text :=
   match prefix with [] => dec i | _ => prefix ++ DOT :: dec i end.
 
 (* val.format(idx=i, hier_idx=p) *)
+(* format(i, "0<w>d"): zero-padded to width w *)
+Definition pad (w : nat) (t : text) : text := repeat 48 (w - length t)%nat ++ t.
 Definition render (t : tmpl) (i : nat) (p : text) : text :=
-  flat_map (fun k => match k with Lit s => s | Idx => dec i | HierIdx => p end) t.
+  flat_map (fun k => match k with Lit s => s | Idx => dec i | HierIdx => p | IdxPad w => pad w (dec i) end) t.
 Definition expand (i : nat) (p : text) (v : value) : value :=
   match v with VStr t => VStr [Lit (render t i p)] | _ => v end.
 
